@@ -296,7 +296,7 @@ func basicCase(c *CaseCtx, kind string) *ContCase {
 	}
 	cc.Ops = ops
 	cc.Hist = HistCfg{DescendPct: 25, PopOnChild: true, InvalidPct: 6}
-	cc.Mon = MonCfg{TreeEvery: 1, DeepEvery: 97, RefEvery: 131, ReachEvery: 13, ColdAtCommit: true}
+	cc.Mon = MonCfg{TreeEvery: 1, DeepEvery: 97, RefEvery: 131, ReachEvery: 13, ColdAtCommit: true, DirtyEvery: 7}
 	if ops > 1500 {
 		cc.Mon.TreeEvery = 3
 		cc.Mon.ReachEvery = 39
